@@ -50,4 +50,19 @@ CHECKS["C15"] = {
     "engine": "tlc+vh",
 }
 
+CHECKS["C16"] = {
+    "category": "model_checking",
+    "text": "spec/AsyncWriter.tla models the writer's state (None/WriteFrom offset, shared buffer), the caller's write and sync futures and an "
+            "adversarial sink, with a ghost that tracks whether the caller honoured C16's precondition; TLC explores every interleaving within the "
+            "bounds and checks that the sink holds whole frames of the armed values in order, completed writes report their payload length, "
+            "rejected values contribute no byte and nothing is pending when clean. Every explored compliant schedule is replayed on the real "
+            "AsyncWriter (scripted AsyncWrite, futures dropped at Pending) with exact sink bytes compared; seeded random walks of a compliant caller "
+            "are validated event by event against the same actions.",
+    "design_ref": "DESIGN.md section 6, C16 and section 4 (compliant caller)",
+    "note": "Trusted: TLC, futures-io semantics as modelled by the scripted sink. Bounds in MC: <= 5 values, <= 2-3 consecutive Pending, <= 2 sink "
+            "faults, <= 4 syncs.",
+    "technique": "TLA+ state-machine spec (AsyncWriter) with compliance ghost + TLC exhaustive schedule exploration + schedule replay + trace validation of random walks",
+    "engine": "tlc+vh",
+}
+
 NOT_YET = "check not built yet in this round (planned in DESIGN.md section 10); not claimed until it exists"
